@@ -15,7 +15,7 @@ MUST_CHECK = {'binson_parser_init_object', 'binson_parser_init_array', 'binson_p
               'binson_parser_leave_object', 'binson_parser_leave_array'}
 INIT = {'binson_parser_init_object', 'binson_parser_init_array'}
 LEAVE = {'binson_parser_leave_object', 'binson_parser_leave_array'}
-MIN_R1_SITES = 9
+MIN_R1_SITES = 6
 MIN_LOOPS = 2
 MIN_LOCAL_PARSERS = 2
 
@@ -171,6 +171,19 @@ def run(rep, tier):
                 'assert_like': sorted(dm[n] for n in asserts), 'state_check_like': sorted(dm[n] for n in statechecks)}
             r1_sites = 0
             r3_loops = 0
+            # access specifiers of member functions, from debug info (private helpers are not entry points)
+            private = {}
+            for mid, (kind, d) in mod.md.items():
+                if kind == 'DISubprogram' and 'linkageName' in d:
+                    ln = d['linkageName'].strip('"')
+                    fl = d.get('flags', '')
+                    if 'DIFlagPrivate' in fl or 'DIFlagProtected' in fl:
+                        private[ln] = True
+                    elif 'DIFlagPublic' not in fl and 'declaration' not in d:
+                        # members of a `class` are private unless declared public (DWARF omits the default access)
+                        sc_ = mod.md.get(d.get('scope', ''))
+                        if sc_ and sc_[0] == 'DICompositeType' and sc_[1].get('tag') == 'DW_TAG_class_type':
+                            private[ln] = True
             for fname, fn in mod.functions.items():
                 um = None
                 pretty = dm.get(fname, fname)
@@ -222,6 +235,31 @@ def run(rep, tier):
                                    ', '.join('line %d' % i.line for i in inits) or 'none', u.text),
                                sample={'rule': 'R2', 'site': 'src/binson.cpp:%d' % u.line, 'use': flow.callee_name(u),
                                        'function': pretty})
+                # ---- R4: a public function that receives a parser from its caller must bring it into a known state first
+                if not private.get(fname, False):
+                    for pi, (pty, pname) in enumerate(fn.params):
+                        if pty != ('ptr', ('named', 'struct.binson_parser_s')):
+                            continue
+                        der = flow.derived_from(fn, pname)
+                        users = [i for i in fn.instructions() if i.op in ('call', 'invoke') and
+                                 any(v[0] == 'local' and v[1] in der for (t, v) in i.ops)]
+                        resets = [i for i in users if flow.callee_name(i) in ('binson_parser_reset', 'binson_parser_verify',
+                                                                           'binson_parser_init_object', 'binson_parser_init_array')]
+                        for u in users:
+                            if u in resets or (flow.callee_name(u) or '').startswith('llvm.'):
+                                continue
+                            totals['r4_uses'] = totals.get('r4_uses', 0) + 1
+                            ok = False
+                            for i in resets:
+                                for chk in checked.get(id(i), ()):
+                                    if check_dominates(fn, chk, u):
+                                        ok = True
+                            rep.ob(ok, 'binson.cpp:%s:R4:%s' % (short, flow.callee_name(u) or 'indirect'),
+                                   'C15/R4 %s: public %s uses the caller\'s parser (%s at src/binson.cpp:%d) before a checked reset/verify brought it '
+                                   'into a known state' % (cname, pretty, dm.get(flow.callee_name(u), flow.callee_name(u)), u.line),
+                                   'rule R4: a public function receiving a binson_parser* must start with a checked binson_parser_reset/verify; '
+                                   'otherwise it acts on whatever state (possibly uninitialised or mid-traversal) the parser is in.',
+                                   sample={'rule': 'R4', 'site': 'src/binson.cpp:%d' % u.line, 'function': pretty})
                 # ---- R3
                 loops = fn.loops()
                 for ins in calls:
